@@ -5,6 +5,7 @@ is enumerated by hand, so a field nobody thought of (or one added by a newer onn
 compared - and applies *only* the normalisations the C02 property statement documents:
 
   N1  the alias domain ``'ai.onnx'`` equals ``''`` in every string field called ``domain``;
+  N7  an all-default ``ModelProto.graph`` (after N4) is the same as an absent one
   N2  ``opset_import``, ``value_info`` and ``metadata_props`` entries are compared as multisets
       (order is irrelevant, multiplicity is not: a duplicated entry is a difference);
   N3  value-info may be ADDED for initializers: a graph initializer that is not a graph input and
@@ -175,7 +176,13 @@ def _canon(msg: Message, unordered: dict[str, str]) -> dict:
                 out[name] = tuple(items)
         elif is_msg:
             if msg.HasField(name):  # N6: presence of sub-messages is information
-                out[name] = _canon(getattr(msg, name), unordered)
+                sub = _canon(getattr(msg, name), unordered)
+                if tname == "ModelProto" and name == "graph" and len(sub) == 1:
+                    # N7: a model's graph that is empty after the normalisations above (e.g. it held only
+                    # value-info naming nothing in it, N4) is the same as no graph field: an IR model always
+                    # has a graph, and an empty one is serialised without touching the field
+                    continue
+                out[name] = sub
         else:
             if in_oneof:
                 if msg.HasField(name):  # N6: which member of a oneof is set is information
